@@ -713,3 +713,106 @@ func (t *Term) body() string {
 // bits). Used to predict observations; returns ok=false if an operator is
 // not supported by the evaluator (then the solver is asked instead).
 var _ = bits.Len64
+
+// ---- evaluation under a model (used to avoid solver queries: a branch side
+// that the current model satisfies is feasible without asking)
+
+// evalUnder rebuilds t with every variable replaced by its model value; the
+// constructors fold constants, so the result is a constant whenever every
+// operator on the way can be evaluated. memo caches per-model results.
+func (ts *TermStore) evalUnder(t *Term, model map[*Term]uint64, memo map[*Term]*Term) *Term {
+	if t.isC {
+		return t
+	}
+	if r, ok := memo[t]; ok {
+		return r
+	}
+	var r *Term
+	if t.op == "var" {
+		v, ok := model[t]
+		if !ok {
+			memo[t] = nil
+			return nil
+		}
+		switch t.sort.k {
+		case sBool:
+			r = ts.Bool(v != 0)
+		case sBV:
+			r = ts.BV(v, t.sort.w)
+		default:
+			r = ts.intern(&Term{op: "const", sort: t.sort, cv: v, isC: true})
+		}
+		memo[t] = r
+		return r
+	}
+	args := make([]*Term, len(t.args))
+	for i, a := range t.args {
+		// short-circuit ite / and / or to keep evaluation cheap
+		args[i] = ts.evalUnder(a, model, memo)
+		if args[i] == nil {
+			memo[t] = nil
+			return nil
+		}
+		if i == 0 && t.op == "ite" && args[0].isC {
+			var pick *Term
+			if args[0].boolVal() {
+				pick = ts.evalUnder(t.args[1], model, memo)
+			} else {
+				pick = ts.evalUnder(t.args[2], model, memo)
+			}
+			memo[t] = pick
+			return pick
+		}
+	}
+	switch t.op {
+	case "not":
+		r = ts.Not(args[0])
+	case "and":
+		r = ts.And(args[0], args[1])
+	case "or":
+		r = ts.Or(args[0], args[1])
+	case "ite":
+		r = ts.Ite(args[0], args[1], args[2])
+	case "=":
+		r = ts.Eq(args[0], args[1])
+	case "bvadd", "bvsub", "bvmul", "bvand", "bvor", "bvxor", "bvudiv", "bvurem", "bvsdiv", "bvsrem", "bvshl", "bvlshr", "bvashr":
+		r = ts.BvBin(t.op, args[0], args[1])
+	case "bvneg":
+		r = ts.BvNeg(args[0])
+	case "bvnot":
+		r = ts.BvNot(args[0])
+	case "bvult", "bvule", "bvugt", "bvuge", "bvslt", "bvsle", "bvsgt", "bvsge":
+		r = ts.BvRel(t.op, args[0], args[1])
+	case "extract":
+		r = ts.Extract(t.ix[0]-1, t.ix[1]-1, args[0])
+	case "zero_extend":
+		r = ts.ZeroExt(args[0], t.sort.w)
+	case "sign_extend":
+		r = ts.SignExt(args[0], t.sort.w)
+	case "concat":
+		r = ts.Concat(args[0], args[1])
+	case "fp.add", "fp.sub", "fp.mul", "fp.div":
+		r = ts.FpBin(t.op, args[0], args[1])
+	case "fp.neg":
+		r = ts.FpNeg(args[0])
+	case "fp.eq", "fp.lt", "fp.leq", "fp.gt", "fp.geq":
+		r = ts.FpRel(t.op, args[0], args[1])
+	case "fp.isNaN":
+		r = ts.FpIsNaN(args[0])
+	case "to_fp":
+		if t.args[0].sort.k == sBV {
+			r = ts.IntToFp(args[0], true, t.sort.w)
+		} else {
+			r = ts.FpToFp(args[0], t.sort.w)
+		}
+	case "to_fp_unsigned":
+		r = ts.IntToFp(args[0], false, t.sort.w)
+	case "to_fp_bits":
+		r = ts.FpFromBits(args[0], t.sort.w)
+	}
+	if r != nil && !r.isC {
+		r = nil
+	}
+	memo[t] = r
+	return r
+}
